@@ -311,7 +311,16 @@ func (e *Enc) encLockOp(v ssa.Value, c *ssa.CallCommon, ci *calleeInfo, st *Stat
 	case "(*sync.Cond).Wait":
 		op = "Wait"
 	case "(*sync.Cond).Signal", "(*sync.Cond).Broadcast":
-		return true // no effect on safety state
+		// no effect on the lock state; if the contracts declare the ghost counter n_wake, every wake-up
+		// call of this goroutine is counted (so that "a release is followed by a wake-up" can be stated)
+		if gv, ok := e.w.CS.Ghosts["n_wake"]; ok && e.mode == ModeInt {
+			key := "G:n_wake"
+			gs := e.st.ghostSort(gv.Sort)
+			e.regKey(key, gs)
+			old := e.get(st, key, gs)
+			e.set(st, key, gs, fmt.Sprintf("(ite %s (+ %s 1) %s)", guard, old, old))
+		}
+		return true
 	default:
 		return false
 	}
